@@ -42,6 +42,11 @@ CFG_SHAPES = {
                 {"entry": [], "b1": ["entry"], "b2": ["entry"], "b3": ["entry"]}),
     "selfloop": (["entry", "hdr"], {"entry": ["hdr"], "hdr": ["hdr", "exit"]},
                  {"entry": [], "hdr": ["entry"]}),
+    # two successor ports of one block leading to the same block (the second one joined with Cfg.branch)
+    "twin": (["entry", "b1"], {"entry": ["b1", "b1"], "b1": ["exit"]}, {"entry": [], "b1": ["entry"]}),
+    "twin-loop": (["entry", "hdr"], {"entry": ["hdr"], "hdr": ["hdr", "hdr", "exit"]},
+                  {"entry": [], "hdr": ["entry"]}),
+    "twin-exit": (["entry"], {"entry": ["exit", "exit"]}, {"entry": []}),
     "tri-exit": (["entry", "b1", "b2"], {"entry": ["b1", "b2", "exit"], "b1": ["b2"], "b2": ["exit"]},
                  {"entry": [], "b1": ["entry"], "b2": ["entry"]}),
 }
@@ -312,9 +317,12 @@ class ProgGen:
                 return r.choice([0.5, -1.25, 1e10])
             if k == "list":
                 return [j(d - 1) for _ in range(r.randint(0, 3))]
-            return {r.choice(["a", "b", "ключ"]): j(d - 1) for _ in range(r.randint(0, 2))}
+            # (user data may spell the format's own field names, present and past)
+            return {r.choice(["a", "b", "ключ", "extension_reqs", "runtime_reqs", "input_extensions", "parent", "op",
+                              "t", "v", "nodes"]): j(d - 1) for _ in range(r.randint(0, 2))}
 
-        return {r.choice(["name", "meta.key", "k", " key ", "k\n", "k<&>"]): j(2) for _ in range(r.randint(1, 2))}
+        return {r.choice(["name", "meta.key", "k", " key ", "k\n", "k<&>", "extension_reqs", "op"]): j(2)
+                for _ in range(r.randint(1, 2))}
 
     def stmt_simple_op(self, rg: Region):
         r = self.r
